@@ -450,11 +450,20 @@ def _timers_alive(plan, res):
     err_cycles = _error_cycles(res)
     sets = {}; fired = set(); gone = set()
     # the wall clock of the simulation, made monotonic (a plan may set it back): seconds that passed
-    msec = {}; prev = None; off = 0
+    # (the driver notices a step when it next looks at the clock in its call_out code - at the first tick whose call_outs are
+    # served, i.e. the first tick cycle without an error; what passed between the step and that look is lost to it, and to this
+    # reference too)
+    msec = {}; prev = None; off = 0; frozen = None; stepped = False
+    tick_cyc = set(e.cycle for e in evs if e.kind == 'step' and re.match(r'&?step (tick|stall) ', e.rest))
     for e in evs:
-        if prev is not None and e.vus < prev: off += prev - e.vus
-        prev = e.vus; msec[id(e)] = 1000000000 + (e.vus + off) // 1000000
-    stepped = off > 0
+        if prev is not None and e.vus < prev:
+            off += prev - e.vus; frozen = e.vus + off; stepped = True
+        prev = e.vus
+        if frozen is not None:
+            off = frozen - e.vus                                   # the clock stands still ...
+            if e.kind == 'cycle' and (e.cycle - 1) in tick_cyc and (e.cycle - 1) not in err_cycles:
+                frozen = None                                      # ... until a tick has been served to its end
+        msec[id(e)] = 1000000000 + (e.vus + off) // 1000000
     for e in evs:
         if e.kind == 'R':
             w = e.rest.split(' ')
